@@ -127,10 +127,14 @@ fn to_value_and_text(r: &AnyRule) -> (Result<Value, String>, Result<String, Stri
 fn parse_list(fam: &str, text: &str) -> Result<(Vec<Value>, Vec<String>, Vec<AnyRule>), String> {
     macro_rules! go {
         ($t:ty, $v:ident) => {{
-            let rs: Vec<$t> = serde_json::from_str(text).map_err(|e| e.to_string())?;
-            let vals = rs.iter().map(|r| serde_json::to_value(r).unwrap_or(Value::Null)).collect();
+            // the datasource rule parser itself when the crate is built with it (harness-ds), the call it makes otherwise
+            #[cfg(feature = "ds")]
+            let rs: Vec<std::sync::Arc<$t>> = sentinel_core::datasource::rule_json_array_parser::<$t>(text).map_err(|e| e.to_string())?;
+            #[cfg(not(feature = "ds"))]
+            let rs: Vec<std::sync::Arc<$t>> = serde_json::from_str::<Vec<$t>>(text).map_err(|e| e.to_string())?.into_iter().map(std::sync::Arc::new).collect();
+            let vals = rs.iter().map(|r| serde_json::to_value(&**r).unwrap_or(Value::Null)).collect();
             let dbg = rs.iter().map(|r| format!("{:?}", r)).collect();
-            let any = rs.into_iter().map(|r| AnyRule::$v(std::sync::Arc::new(r))).collect();
+            let any = rs.into_iter().map(|r| AnyRule::$v(r)).collect();
             Ok((vals, dbg, any))
         }};
     }
